@@ -3,8 +3,8 @@
 // ASSUME: CBMC's per-dereference pointer checks are off in this unit (checks=min: they multiply the formula beyond memory); harness assertions, deadlock probe, step-bound and unwinding assertions are on
 // ASSUME: values follow SC interleavings
 // ASSUME: topology = one of 5 thread->socket maps of T=3 threads allowed by HWTopoLinux.cpp (socket(0)=0, a new socket id is max+1, leader = least tid of the socket, cumulativeMaxSocket = running maximum; membership need not be contiguous): {0,0,0} {0,0,1} {0,1,1} {0,1,0} {0,1,2}; the pool object is a harness fake whose signals[] point to the modelled threads' real thread_local my_box; PerThreadStorage/PerSocketStorage are the real code over 256-byte blocks (C15_env.h)
-// OB: ob_topo_T3 tier=quick unwind=90 timeout=2400 solver=cadical params=5 bounds="TopoBarrier: T=3 x 2 phases, 5 topologies (one query each), 60 steps" desc="no thread leaves its k-th wait before all entered it; all return; no deadlock"
-// OB: ob_topo_T2 tier=quick unwind=90 timeout=1500 solver=cadical params=2 bounds="TopoBarrier: T=2 x 3 phases, topologies {0,0} {0,1}, 44 steps" desc="phase separation over three phases"
+// OB: ob_topo_T3 tier=thorough unwind=90 timeout=3000 solver=cadical mem_gb=14 cbmc="--max-field-sensitivity-array-size 300" params=5 bounds="TopoBarrier: T=3 x 2 phases, 5 topologies (one query each), 60 steps" desc="no thread leaves its k-th wait before all entered it; all return; no deadlock"
+// OB: ob_topo_T2 tier=quick unwind=90 timeout=1500 solver=cadical mem_gb=10 cbmc="--max-field-sensitivity-array-size 300" params=2 bounds="TopoBarrier: T=2 x 3 phases, topologies {0,0} {0,1}, 44 steps" desc="phase separation over three phases"
 #include "C15_env.h"
 #include "galois/substrate/Barrier.h"
 #include "../src/Barrier.cpp"
@@ -21,7 +21,8 @@ unsigned vfg_topo;
 unsigned vfg_phase[3], vfg_n;
 TopoBarrier* vfg_tb;
 
-inline void env(unsigned tid) {
+char* vfg_pss[3];
+inline void env(unsigned tid, bool firstTime) {
   auto& me        = ThreadPool::my_box;
   const unsigned char* s = SOCK[vfg_topo];
   unsigned leader = 0, cum = 0;
@@ -35,8 +36,9 @@ inline void env(unsigned tid) {
   me.topo.socketLeader        = leader;
   me.topo.cumulativeMaxSocket = cum;
   ptsBase                     = vfenv::base[tid];
-  pssBase                     = vfenv::base[leader];
   getThreadPool().signals[tid] = &me;
+  if (firstTime) vfg_pss[tid] = getPPSBackend().initPerSocket(3); // real per-socket backend: leaders allocate, others share
+  pssBase = vfg_pss[tid];
 }
 
 template <unsigned NPH>
@@ -50,9 +52,9 @@ inline void phases(unsigned tid) {
 }
 } // namespace
 
-extern "C" void vf_tseq_topoenv(unsigned tid) { env(tid); }
-extern "C" void vf_tinit_topo(unsigned tid) { env(tid); }
-extern "C" void vf_tinit_topo3(unsigned tid) { env(tid); }
+extern "C" void vf_tseq_topoenv(unsigned tid) { env(tid, true); }
+extern "C" void vf_tinit_topo(unsigned tid) { env(tid, false); }
+extern "C" void vf_tinit_topo3(unsigned tid) { env(tid, false); }
 extern "C" void vf_thread_topo(unsigned tid) { phases<2>(tid); }
 extern "C" void vf_thread_topo3(unsigned tid) { phases<3>(tid); }
 
